@@ -63,14 +63,14 @@ func Discharge(obls []*Obligation, opt SolveOpts) {
 	wg.Wait()
 }
 
-func runSolver(sd solverDef, query string, file string, to time.Duration) (string, string, float64) {
+func runSolverCtx(ctx context.Context, sd solverDef, query string, file string, to time.Duration) (string, string, float64) {
 	if err := os.WriteFile(file, []byte(query), 0o644); err != nil {
 		return "error", err.Error(), 0
 	}
-	ctx, cancel := context.WithTimeout(context.Background(), to+3*time.Second)
+	cctx, cancel := context.WithTimeout(ctx, to+3*time.Second)
 	defer cancel()
 	args := sd.args(file, to)
-	cmd := exec.CommandContext(ctx, args[0], args[1:]...)
+	cmd := exec.CommandContext(cctx, args[0], args[1:]...)
 	var out bytes.Buffer
 	cmd.Stdout = &out
 	cmd.Stderr = &out
@@ -83,7 +83,10 @@ func runSolver(sd solverDef, query string, file string, to time.Duration) (strin
 	case "unsat", "sat", "unknown":
 		return first, s, secs
 	}
-	if strings.Contains(s, "timeout") || ctx.Err() != nil {
+	if ctx.Err() != nil {
+		return "cancelled", s, secs
+	}
+	if strings.Contains(s, "timeout") || cctx.Err() != nil {
 		return "timeout", s, secs
 	}
 	if strings.HasPrefix(first, "cvc5 interrupted") {
@@ -92,47 +95,84 @@ func runSolver(sd solverDef, query string, file string, to time.Duration) (strin
 	return "error", s, secs
 }
 
+// second-stage portfolio: the same query under different solvers / seeds (proof search is seed sensitive)
+var portfolio = []solverDef{
+	{"z3-new", func(f string, to time.Duration) []string {
+		return []string{"z3-new", fmt.Sprintf("-T:%d", int(to.Seconds())+1), f}
+	}, false},
+	{"z3", func(f string, to time.Duration) []string {
+		return []string{"z3", fmt.Sprintf("-T:%d", int(to.Seconds())+1), f}
+	}, false},
+	{"z3-new/seed3", func(f string, to time.Duration) []string {
+		return []string{"z3-new", fmt.Sprintf("-T:%d", int(to.Seconds())+1), "smt.random_seed=3", f}
+	}, false},
+	{"z3-new/seed5", func(f string, to time.Duration) []string {
+		return []string{"z3-new", fmt.Sprintf("-T:%d", int(to.Seconds())+1), "smt.random_seed=5", f}
+	}, false},
+	{"cvc5", func(f string, to time.Duration) []string {
+		return []string{"cvc5", fmt.Sprintf("--tlimit=%d", to.Milliseconds()), f}
+	}, true},
+}
+
 func dischargeOne(o *Obligation, opt SolveOpts, wid int) {
 	base := filepath.Join(opt.TmpDir, fmt.Sprintf("w%d", wid))
+	if opt.KeepSMT {
+		base = filepath.Join(opt.TmpDir, strings.NewReplacer("/", "_", "#", "-", "*", "").Replace(o.ID()))
+	}
 	want := o.Expect // "unsat" or "sat"
-	// first: z3-new alone
 	type res struct {
-		sd          solverDef
-		r, out      string
-		secs        float64
+		sd     solverDef
+		r, out string
+		secs   float64
 	}
 	to := opt.Timeout
 	if want == "sat" && to > 2*time.Second {
 		to = 2 * time.Second // vacuity guards: anything but a quick unsat passes
 	}
-	try := func(sd solverDef, model bool) res {
+	try := func(ctx context.Context, sd solverDef, model bool, to time.Duration) res {
 		q := o.Query(sd.cvc5, model)
-		r, out, secs := runSolver(sd, q, base+"-"+sd.name+".smt2", to)
+		r, out, secs := runSolverCtx(ctx, sd, q, base+"-"+strings.ReplaceAll(sd.name, "/", "_")+".smt2", to)
 		return res{sd, r, out, secs}
 	}
-	var all []res
-	r0 := try(solvers[0], false)
-	all = append(all, r0)
-	o.Seconds += r0.secs
 	decided := func(r res) bool { return r.r == "unsat" || r.r == "sat" }
-	final := r0
-	if !decided(r0) && want == "unsat" {
-		// race the other two
-		var wg sync.WaitGroup
-		rs := make([]res, 2)
-		for i, sd := range solvers[1:] {
-			wg.Add(1)
-			go func(i int, sd solverDef) {
-				defer wg.Done()
-				rs[i] = try(sd, false)
-			}(i, sd)
+	var all []res
+	// stage 1: z3-new alone, short
+	t1 := 1500 * time.Millisecond
+	if t1 > to {
+		t1 = to
+	}
+	final := try(context.Background(), portfolio[0], false, t1)
+	all = append(all, final)
+	o.Seconds += final.secs
+	if !decided(final) && want == "unsat" {
+		// stage 2: portfolio race, first decided answer wins
+		ctx, cancel := context.WithCancel(context.Background())
+		ch := make(chan res, len(portfolio))
+		for _, sd := range portfolio {
+			go func(sd solverDef) { ch <- try(ctx, sd, false, to) }(sd)
 		}
-		wg.Wait()
-		for _, r := range rs {
+		got := 0
+		for got < len(portfolio) {
+			r := <-ch
+			got++
 			all = append(all, r)
-			o.Seconds += r.secs
+			if r.r != "cancelled" {
+				o.Seconds += r.secs
+			}
 			if decided(r) && !decided(final) {
 				final = r
+				cancel()
+			}
+		}
+		cancel()
+		if !decided(final) {
+			for _, r := range all[1:] {
+				if r.r == "unknown" {
+					final = r
+				}
+			}
+			if !decided(final) && final.r != "unknown" {
+				final = all[1]
 			}
 		}
 	}
@@ -140,6 +180,9 @@ func dischargeOne(o *Obligation, opt SolveOpts, wid int) {
 	o.Result = final.r
 	var sb strings.Builder
 	for _, r := range all {
+		if r.r == "cancelled" {
+			continue
+		}
 		fmt.Fprintf(&sb, "%s: %s (%.2fs)\n", r.sd.name, r.r, r.secs)
 		if r.r == "error" {
 			sb.WriteString(truncate(r.out, 600) + "\n")
@@ -154,7 +197,7 @@ func dischargeOne(o *Obligation, opt SolveOpts, wid int) {
 			o.Status = "failed"
 			if final.r == "sat" {
 				// fetch a model
-				m := try(final.sd, true)
+				m := try(context.Background(), final.sd, true, to)
 				_, keys := o.modelTerms()
 				o.Model = parseModelValues(m.out, keys)
 				o.Output += truncate(m.out, 4000)
